@@ -1,6 +1,7 @@
 package vc
 
 import (
+	"golang.org/x/tools/go/ssa"
 	"fmt"
 	"os"
 	"path/filepath"
@@ -324,6 +325,14 @@ func (l *lexer) parsePrimary() Expr {
 }
 
 // LoadContracts reads every verif_contracts.go below dir.
+// Attach makes the corpus-wide assumptions (pure interface methods) known to the program's static analyses.
+func (cs *Contracts) Attach(p *Prog) {
+	p.modMu.Lock()
+	defer p.modMu.Unlock()
+	p.PureMethods = cs.PureMethods
+	p.mods = map[*ssa.Function]*ModSet{}
+}
+
 func LoadContracts(dir string) (*Contracts, []string, error) {
 	cs := &Contracts{ByFunc: map[string]*Contract{}, Specs: map[string]*SpecFunc{}}
 	var files []string
@@ -426,6 +435,10 @@ func (cs *Contracts) parseFile(path, src string) error {
 				return fmt.Errorf("%s:%d: %v", path, ln, err)
 			}
 			cur.OnMapUpdates = append(cur.OnMapUpdates, &OnStore{Field: f[0], Label: cl.Label, Expr: cl.Expr, Text: cl.Text})
+		case "count-stores":
+			cur.CountStores = append(cur.CountStores, strings.Fields(rest)...)
+		case "count-calls":
+			cur.CountCalls = append(cur.CountCalls, strings.Fields(rest)...)
 		case "no-store":
 			cur.NoStores = append(cur.NoStores, strings.Fields(rest)...)
 		case "full-loop":
@@ -501,6 +514,14 @@ func (cs *Contracts) parseFile(path, src string) error {
 				return fmt.Errorf("%s:%d: %v", path, ln, err)
 			}
 			cs.Specs[name] = &SpecFunc{Name: name, Params: params, Body: body}
+		case "pure-method":
+			if cs.PureMethods == nil {
+				cs.PureMethods = map[string]bool{}
+			}
+			for _, f := range strings.Fields(rest) {
+				cs.PureMethods[f] = true
+			}
+			cs.Assumed = append(cs.Assumed, "interface method "+rest+" is a pure function of its receiver")
 		case "assume-contract":
 			cs.Assumed = append(cs.Assumed, rest)
 		default:
